@@ -647,7 +647,7 @@ class ConstantReconnectionPolicy(ReconnectionPolicy):
         self.max_attempts = max_attempts
 
     def new_schedule(self):
-        if self.max_attempts:
+        if self.max_attempts is not None:
             return repeat(self.delay, self.max_attempts)
         return repeat(self.delay)
 
